@@ -83,6 +83,14 @@ Definition krim_predict (kern : mat -> mat -> mat) (m : krim) (X : mat) : nat ->
 (* what the base fit computes on the training kernel rows: self._infer(training_kernel_) and labels_ *)
 Definition krim_fit_proba (m : krim) : mat := linear_infer o (kr_ntrain m) (kr_K m) (kr_W m) (kr_b m) (kr_train_kernel m).
 Definition krim_fit_labels (m : krim) : nat -> nat := fun i => argmax_row o (kr_K m) (krim_fit_proba m i).
+(* fit called on an estimator OBJECT that may already be fitted (prev = the attributes left by an earlier
+   fit, None on a new object).  DiscriminativeModel.fit / KernelRIM.fit assign every attribute that
+   predict / predict_proba read again (_init_params: W_, b_ | W1_, b1_, W2_, b2_ | W_skip_; KernelRIM.fit:
+   input_data_, training_kernel_) and keep nothing of prev; [learned] is what the training loop of THIS fit
+   produced.  No prediction-time cache exists in the code as it is. *)
+Definition refit (prev : option model) (learned : model) : model := learned.
+Definition krim_refit (kern : mat -> mat -> mat) (prev : option krim) (ntrain K : nat) (Xtrain W : mat) (b : vec) : krim :=
+  krim_fit_store kern ntrain K Xtrain W b.
 (* the linear kernel X @ Y.T, used to show that the row-wise hypothesis on the oracle is satisfiable *)
 Definition linear_kernel (d : nat) (A B : mat) : mat := fun i t => bsum o d (fun j => nmul o (A i j) (B t j)).
 
@@ -188,4 +196,4 @@ Fixpoint route (fuel : nat) (t : atree) (x : vec) (node : Z) : res Z :=
 Definition tree_predict (t : atree) (X : list vec) : res (list Z) := predict_vec (length (a_left t)) t X 0%Z.
 Definition tree_route (t : atree) (x : vec) : res Z := route (length (a_left t)) t x 0%Z.
 End Rowwise.
-(* EXTRACT: select select_vec select_rows res model n_features n_clusters infer mlp_infer_st sparse_mlp_infer_st predict_proba predict fit_labels krim krim_fit_store krim_compute_kernel krim_predict_proba krim_predict krim_fit_proba krim_fit_labels linear_kernel douglas_bin douglas_leaf douglas_infer atree zn pick scatter predict_vec route tree_predict tree_route *)
+(* EXTRACT: select select_vec select_rows res model n_features n_clusters infer mlp_infer_st sparse_mlp_infer_st predict_proba predict fit_labels krim krim_fit_store krim_compute_kernel krim_predict_proba krim_predict krim_fit_proba krim_fit_labels refit krim_refit linear_kernel douglas_bin douglas_leaf douglas_infer atree zn pick scatter predict_vec route tree_predict tree_route *)
